@@ -31,14 +31,25 @@
     `*_error_kind` shows that a validation block never raises anything but TypeError / AssertionError.  "Before doing
     any work": the rejected outcome is produced by the validation block alone — the result is `.error e` whatever the
     tokenization table `toks` and the cpu count are, and `flagAfter` is the flag the call found.
-  * Acceptance: `validate… = .ok …` is the ONLY hypothesis for the set-similarity, overlap-coefficient and overlap
-    joins and for `filter_tables` of all filters — nothing is assumed about the rows (none, one, all missing, all
-    empty strings), and `*_accepts_iff` characterises acceptance by the documented preconditions, with both dtype
+  * Acceptance: `validate… = .ok …` plus the BODY CONDITIONS `BodyOK` (SSJ/Props/Common.lean) are the only hypotheses for
+    the set-similarity, overlap-coefficient and overlap joins and for `filter_tables` of all filters.  `BodyOK` says
+    what the argument validations do not look at but the real code trips over after them: (b) every PRESENT join value
+    is a Python `str` (`StrColumn`; an int / float / bool / bytes … in an object column makes the tokenizer raise
+    TypeError), and (a) the output header has no column `_id` (`NoIdClash`; else the final
+    `output_table.insert(0, '_id', …)` raises ValueError).  Both are necessary: the companion file
+    `SSJ/Props/C15_body.lean` proves `body_returns_iff` (a validated call returns a frame IFF `BodyOK`),
+    `nonstring_join_value_raises` and `id_clash_raises`; also then the tokenizer's flag is handed back unchanged
+    (`body_error_leaves_flag` below: every `*_join_py` restores it in a `finally`).
+    Nothing else is assumed about the rows (none, one, all missing, all empty strings), and `*_accepts_iff` characterises acceptance by the documented preconditions, with both dtype
     tags "object" and "str" (pandas string dtype) accepted.  `edit_distance_join` additionally needs its threshold to
     be an int or a finite float (`int(floor(threshold))` must exist; the validation itself lets `inf` through, which
     then raises OverflowError in `math.floor` — in Python as in the model).  `apply_matcher` / `filter_candset`
-    additionally need every candidate key to occur in its table (otherwise KeyError, in Python as in the model) and
-    a candset of fewer than 2⁴⁰ rows (binary64 precision limit of the chunk-boundary computation of `split_table`).
+    additionally need every candidate key to occur in its table (otherwise KeyError, in Python as in the model),
+    a candset of fewer than 2⁴⁰ rows (binary64 precision limit of the chunk-boundary computation of `split_table`),
+    and that nothing handed to the tokenizer is a non-string: `apply_matcher` — when a tokenizer is given, both match
+    columns are `StrColumn`s (`hstr`); `filter_candset` — the filter's `filter_pair`, a Python call
+    `fp : Cell → Cell → Except PyErr Bool`, does not raise on pairs of values of the two columns (`hfp`; implied by
+    `StrColumn`s for `filterPairPy` / `overlapFilterPairPy`).  Otherwise TypeError: `C15_body`.
 
   NOT COVERED.  `profile_table_for_join` argument validation (the profiler model starts at the column level; C17);
   the converters (C16: `frame_modes`/`series_error_iff`).  That the DataFrame objects passed in are not mutated is
@@ -182,7 +193,7 @@ theorem edit_distance_join_rejected (a : JoinArgs) (t : TokObj) (toks : TokFn) (
   editDistanceJoinPy_reject a t toks cpu e h
 
 /-- `overlap_join` validates tokenizer, threshold and operator through the OverlapFilter constructor:
-    TypeError (not a tokenizer) or AssertionError (threshold `≤ 0`, operator not in `>=`, `>`, `=`), nothing else. -/
+    TypeError (not a tokenizer) or AssertionError (threshold not `> 0`, operator not in `>=`, `>`, `=`), nothing else. -/
 theorem overlap_filter_error_kind (size : PyV) (op : String) (am : Bool) (t : TokObj) (e : PyErr)
     (h : mkOverlapFilter size op am t = .error e) : e = .typeErr ∨ e = .assertion :=
   mkOverlapFilter_error_kind size op am t e h
@@ -215,6 +226,20 @@ theorem overlap_join_rejected_tables (a : JoinArgs) (t : TokObj) (toks : TokFn) 
   rw [overlapFilterTables_eq, h]
   rfl
 
+/-- A join that raises — rejected up front, or AFTER validation inside its body (tokenizer TypeError on a non-string
+    join value, `_id` clash, … : `C15_body`) — hands the tokenizer back with its set/bag flag as it found it: all six
+    joins restore the flag in a `finally`.  (The hypothesis "raises" is not even needed: `C12.flag_restored_*`.) -/
+theorem body_error_leaves_flag (a : JoinArgs) (t : TokObj) (toks : TokFn) (cpu : Int) (e : PyErr) :
+    (∀ m : Measure, (setSimJoinPy m a t toks cpu).result = .error e →
+      (setSimJoinPy m a t toks cpu).flagAfter = t.returnSet) ∧
+    ((overlapCoefficientJoinPy a t toks cpu).result = .error e →
+      (overlapCoefficientJoinPy a t toks cpu).flagAfter = t.returnSet) ∧
+    ((overlapJoinPy a t toks cpu).result = .error e → (overlapJoinPy a t toks cpu).flagAfter = t.returnSet) ∧
+    ((editDistanceJoinPy a t toks cpu).result = .error e →
+      (editDistanceJoinPy a t toks cpu).flagAfter = t.returnSet) :=
+  ⟨fun m _ => setSimJoinPy_flag m a t toks cpu, fun _ => overlapCoefficientJoinPy_flag a t toks cpu,
+    fun _ => overlapJoinPy_flag a t toks cpu, fun _ => editDistanceJoinPy_flag a t toks cpu⟩
+
 /-! ### which thresholds and operators are in range -/
 
 /-- jaccard / cosine / dice / overlap coefficient: a float threshold is rejected iff it is outside (0, 1] -/
@@ -233,6 +258,21 @@ theorem threshold_overlap_rejected_iff (i : Int) (q : Rat) :
     (Gen.validate_threshold (.int i) (.str "OVERLAP") = .err .assertion ↔ i ≤ 0) ∧
     (Gen.validate_threshold (.float q) (.str "OVERLAP") = .err .assertion ↔ q ≤ 0) :=
   ⟨Gen.validate_threshold_overlap i, Gen.validate_threshold_overlap_float q⟩
+
+/-- ANY threshold value (the tests are `if not threshold >= 0`, `if not threshold > 0`,
+    `if not (threshold > 0 and threshold <= 1)`): it is accepted iff the Python comparison(s) come out TRUE — so a value
+    for which they are not true, NaN-like or not a number, is rejected, not let through. -/
+theorem threshold_accepted_iff (v : PyV) (mname : String) (hm : Gen.unitMeasure mname) :
+    (Gen.validate_threshold v (.str mname) ≠ .err .assertion ↔
+      PyV.gtb v (.int 0) = true ∧ PyV.leb v (.int 1) = true) ∧
+    (Gen.validate_threshold v (.str "EDIT_DISTANCE") ≠ .err .assertion ↔ PyV.geb v (.int 0) = true) ∧
+    (Gen.validate_threshold v (.str "OVERLAP") ≠ .err .assertion ↔ PyV.gtb v (.int 0) = true) :=
+  ⟨Gen.validate_threshold_unit_iff mname v hm, Gen.validate_threshold_ed_iff v, Gen.validate_threshold_overlap_iff v⟩
+
+/-- a threshold that is not a number (a string, `None`; `PyV.numVal?` undefined) is rejected for EVERY measure name -/
+theorem threshold_non_number_rejected (v : PyV) (mname : String) (hv : PyV.numVal? v = Option.none) :
+    Gen.validate_threshold v (.str mname) = .err .assertion :=
+  Gen.validate_threshold_non_numeric v mname hv
 
 /-- operators: similarity joins accept exactly `>=`, `>`, `=`; the edit distance join exactly `<=`, `<`, `=`;
     `apply_matcher` exactly the six operators -/
@@ -387,7 +427,7 @@ theorem apply_matcher_checks (a : MatcherArgs) (t : Option TokObj) (c l r : Fram
   validateMatcher_tables a t c l r hc hl hr h1 h2
 
 /-- `filter_candset` rejected by its validation block raises exactly that exception. -/
-theorem filter_candset_rejected (a : CandsetArgs) (fp : Cell → Cell → Bool) (cpu : Int) (e : PyErr)
+theorem filter_candset_rejected (a : CandsetArgs) (fp : Cell → Cell → Except PyErr Bool) (cpu : Int) (e : PyErr)
     (h : validateCandset a = .error e) : filterCandset a fp cpu = .error e :=
   filterCandset_reject a fp cpu e h
 
@@ -479,78 +519,88 @@ theorem filter_accepts (name : String) (thr : PyV) (ae am : Bool) (t : TokObj) (
             allowEmpty := ae, allowMissing := am } :=
   mkFilter_ok name thr ae am t m hm ht hq h
 
-/-- jaccard / cosine / dice join: validated arguments ⇒ a DataFrame, for tables of ANY shape, any tokenization,
-    any n_jobs / cpu count; and the tokenizer flag is back to what it was. -/
+/-- jaccard / cosine / dice join: validated arguments and `BodyOK` (present join values are strings, no `_id` in the
+    output header) ⇒ a DataFrame, for tables of ANY shape, any tokenization, any n_jobs / cpu count; and the tokenizer
+    flag is back to what it was. -/
 theorem set_sim_join_accepts (m : Measure) (a : JoinArgs) (t : TokObj) (toks : TokFn) (cpu : Int) (l r : Frame)
-    (hv : validateJoin m.name a t = .ok (l, r)) :
+    (hv : validateJoin m.name a t = .ok (l, r))
+    (hb : BodyOK a.toTableArgs l r a.outSimScore) :
     ∃ fr, (setSimJoinPy m a t toks cpu).result = .ok fr ∧ (setSimJoinPy m a t toks cpu).flagAfter = t.returnSet := by
-  obtain ⟨fr, h⟩ := setSimJoinPy_total m a t toks cpu l r hv
-  exact ⟨fr, h, setSimJoinPy_flag m a t toks cpu fr h⟩
+  obtain ⟨fr, h⟩ := setSimJoinPy_total m a t toks cpu l r hv hb
+  exact ⟨fr, h, setSimJoinPy_flag m a t toks cpu⟩
 
-/-- overlap coefficient join: validated arguments ⇒ a DataFrame, for tables of any shape. -/
+/-- overlap coefficient join: validated arguments and `BodyOK` ⇒ a DataFrame, for tables of any shape. -/
 theorem overlap_coefficient_join_accepts (a : JoinArgs) (t : TokObj) (toks : TokFn) (cpu : Int) (l r : Frame)
-    (hv : validateJoin "OVERLAP_COEFFICIENT" a t = .ok (l, r)) :
+    (hv : validateJoin "OVERLAP_COEFFICIENT" a t = .ok (l, r))
+    (hb : BodyOK a.toTableArgs l r a.outSimScore) :
     ∃ fr, (overlapCoefficientJoinPy a t toks cpu).result = .ok fr ∧
       (overlapCoefficientJoinPy a t toks cpu).flagAfter = t.returnSet := by
-  obtain ⟨fr, h⟩ := overlapCoefficientJoinPy_total a t toks cpu l r hv
-  exact ⟨fr, h, overlapCoefficientJoinPy_flag a t toks cpu fr h⟩
+  obtain ⟨fr, h⟩ := overlapCoefficientJoinPy_total a t toks cpu l r hv hb
+  exact ⟨fr, h, overlapCoefficientJoinPy_flag a t toks cpu⟩
 
-/-- overlap join: a constructible OverlapFilter and validated tables ⇒ a DataFrame, for tables of any shape. -/
+/-- overlap join: a constructible OverlapFilter, validated tables and `BodyOK` ⇒ a DataFrame, for tables of any shape. -/
 theorem overlap_join_accepts (a : JoinArgs) (t : TokObj) (toks : TokFn) (cpu : Int) (f : OverlapFilterObj) (l r : Frame)
     (hf : mkOverlapFilter a.threshold a.compOp a.allowMissing t = .ok f)
-    (hv : validateFilterTables a.toTableArgs = .ok (l, r)) :
+    (hv : validateFilterTables a.toTableArgs = .ok (l, r))
+    (hb : BodyOK a.toTableArgs l r a.outSimScore) :
     ∃ fr, (overlapJoinPy a t toks cpu).result = .ok fr ∧ (overlapJoinPy a t toks cpu).flagAfter = t.returnSet := by
-  obtain ⟨fr, h⟩ := overlapJoinPy_total a t toks cpu f l r hf hv
+  obtain ⟨fr, h⟩ := overlapJoinPy_total a t toks cpu f l r hf hv hb
   exact ⟨fr, h, rfl⟩
 
-/-- edit distance join: validated arguments with an int or (finite) float threshold ⇒ a DataFrame. -/
+/-- edit distance join: validated arguments with an int or (finite) float threshold, and `BodyOK` ⇒ a DataFrame. -/
 theorem edit_distance_join_accepts (a : JoinArgs) (t : TokObj) (toks : TokFn) (cpu : Int) (l r : Frame)
     (hv : validateJoin "EDIT_DISTANCE" a t = .ok (l, r))
-    (hthr : (∃ k : Int, a.threshold = .int k) ∨ (∃ q : Rat, a.threshold = .float q)) :
+    (hthr : (∃ k : Int, a.threshold = .int k) ∨ (∃ q : Rat, a.threshold = .float q))
+    (hb : BodyOK a.toTableArgs l r a.outSimScore) :
     ∃ fr, (editDistanceJoinPy a t toks cpu).result = .ok fr ∧
       (editDistanceJoinPy a t toks cpu).flagAfter = t.returnSet := by
   obtain ⟨tau, htau⟩ := floor_toInt_of_numeric a.threshold hthr
-  obtain ⟨fr, h⟩ := editDistanceJoinPy_total a t toks cpu l r tau hv htau
-  exact ⟨fr, h, editDistanceJoinPy_flag a t toks cpu fr h⟩
+  obtain ⟨fr, h⟩ := editDistanceJoinPy_total a t toks cpu l r tau hv htau hb
+  exact ⟨fr, h, editDistanceJoinPy_flag a t toks cpu⟩
 
 /-- `int(floor(threshold))`: `k` for an int `k`, `⌊q⌋` for a float `q` -/
 theorem edit_distance_threshold_conversion (k : Int) (q : Rat) :
     PyV.toInt (PyV.floor (.int k)) = .int k ∧ PyV.toInt (PyV.floor (.float q)) = .int q.floor :=
   ⟨rfl, rfl⟩
 
-/-- `filter_tables` of the size / prefix / position / suffix filter: validated arguments ⇒ a DataFrame. -/
+/-- `filter_tables` of the size / prefix / position / suffix filter: validated arguments and `BodyOK` ⇒ a DataFrame. -/
 theorem filter_tables_accepts (k : FilterKind) (f : FilterObj) (a : TableArgs) (t : TokObj) (toks : TokFn) (cpu : Int)
-    (l r : Frame) (hv : validateFilterTables a = .ok (l, r)) :
+    (l r : Frame) (hv : validateFilterTables a = .ok (l, r))
+    (hb : BodyOK a l r false) :
     ∃ fr, filterTables k f a t toks cpu = .ok fr :=
-  filterTables_total k f a t toks cpu l r hv
+  filterTables_total k f a t toks cpu l r hv hb
 
-/-- `OverlapFilter.filter_tables`: validated arguments ⇒ a DataFrame. -/
+/-- `OverlapFilter.filter_tables`: validated arguments and `BodyOK` ⇒ a DataFrame. -/
 theorem overlap_filter_tables_accepts (f : OverlapFilterObj) (a : TableArgs) (oss : Bool) (tok : String → List Tok)
-    (cpu : Int) (l r : Frame) (hv : validateFilterTables a = .ok (l, r)) :
+    (cpu : Int) (l r : Frame) (hv : validateFilterTables a = .ok (l, r))
+    (hb : BodyOK a l r oss) :
     ∃ fr, overlapFilterTables f a oss tok cpu = .ok fr :=
-  overlapFilterTables_total f a oss tok cpu l r hv
+  overlapFilterTables_total f a oss tok cpu l r hv hb
 
-/-- `apply_matcher`: validated arguments, candidate keys present in the tables ⇒ a DataFrame (with the candset's
-    columns if the candset is empty, else the output header). -/
+/-- `apply_matcher`: validated arguments, candidate keys present in the tables and — when a tokenizer is given — string
+    match columns ⇒ a DataFrame (with the candset's columns if the candset is empty, else the output header). -/
 theorem apply_matcher_accepts (a : MatcherArgs) (t : Option TokObj) (toks : TokFn) (sim : SimArg → SimArg → PyV)
     (cpu : Int) (c l r : Frame) (hv : validateMatcher a t = .ok (c, l, r))
     (hl : ∀ cr ∈ c.rows, cr.cell (c.colIdx a.candLKey) ∈ l.col a.lKey)
     (hr : ∀ cr ∈ c.rows, cr.cell (c.colIdx a.candRKey) ∈ r.col a.rKey)
-    (hlen : c.rows.length < 2 ^ 40) :
+    (hlen : c.rows.length < 2 ^ 40)
+    (hstr : t.isSome → StrColumn l a.lAttr ∧ StrColumn r a.rAttr) :
     ∃ fr, applyMatcher a t toks sim cpu = .ok fr := by
-  obtain ⟨fr, h, _⟩ := applyMatcher_rows' a t toks sim cpu c l r hv hl hr hlen
+  obtain ⟨fr, h, _⟩ := applyMatcher_rows' a t toks sim cpu c l r hv hl hr hlen hstr
   exact ⟨fr, h⟩
 
-/-- `filter_candset`: validated arguments, candidate keys present ⇒ a DataFrame with the candset's columns and
-    dtypes whose rows are a subsequence of the candset's. -/
-theorem filter_candset_accepts (a : CandsetArgs) (fp : Cell → Cell → Bool) (cpu : Int) (c l r : Frame)
+/-- `filter_candset`: validated arguments, candidate keys present, and a `filter_pair` that does not raise on the values
+    of the two filter columns ⇒ a DataFrame with the candset's columns and dtypes whose rows are a subsequence of the
+    candset's. -/
+theorem filter_candset_accepts (a : CandsetArgs) (fp : Cell → Cell → Except PyErr Bool) (cpu : Int) (c l r : Frame)
     (hv : validateCandset a = .ok (c, l, r))
     (hl : ∀ cr ∈ c.rows, cr.cell (c.colIdx a.candLKey) ∈ l.col a.lKey)
     (hr : ∀ cr ∈ c.rows, cr.cell (c.colIdx a.candRKey) ∈ r.col a.rKey)
-    (hlen : c.rows.length < 2 ^ 40) :
+    (hlen : c.rows.length < 2 ^ 40)
+    (hfp : ∀ ls ∈ l.rows, ∀ rs ∈ r.rows, ∃ b, fp (valOf l a.lAttr ls) (valOf r a.rAttr rs) = .ok b) :
     ∃ fr, filterCandset a fp cpu = .ok fr ∧ fr.columns = c.columns ∧ fr.dtypes = c.dtypes ∧
       fr.rows.Sublist c.rows :=
-  filterCandset_total a fp cpu c l r hv hl hr hlen
+  filterCandset_total a fp cpu c l r hv hl hr hlen hfp
 
 /-! ## F. Non-vacuity -/
 
@@ -577,10 +627,11 @@ example : validateJoin "EDIT_DISTANCE" (exArgs exEmpty exEmpty (.int 2) "<=") ex
 /-- hence the joins return DataFrames on them, for every tokenization and cpu count -/
 example (toks : TokFn) (cpu : Int) :
     ∃ fr, (setSimJoinPy .jaccard (exArgs exL exR (.float (mkRat 3 10)) ">=") exTok toks cpu).result = .ok fr :=
-  (set_sim_join_accepts .jaccard _ exTok toks cpu exL exR (by decide)).imp fun _ h => h.1
+  (set_sim_join_accepts .jaccard _ exTok toks cpu exL exR (by decide) (by decide +kernel)).imp fun _ h => h.1
 example (toks : TokFn) (cpu : Int) :
     ∃ fr, (editDistanceJoinPy (exArgs exEmpty exEmpty (.int 2) "<=") exTok toks cpu).result = .ok fr :=
-  (edit_distance_join_accepts _ exTok toks cpu exEmpty exEmpty (by decide) (Or.inl ⟨2, rfl⟩)).imp fun _ h => h.1
+  (edit_distance_join_accepts _ exTok toks cpu exEmpty exEmpty (by decide) (Or.inl ⟨2, rfl⟩) (by decide +kernel)).imp
+    fun _ h => h.1
 /-- invalid arguments are rejected: threshold 1.5, operator `<=` for a similarity join, numeric join column,
     a table that is not a DataFrame -/
 example : validateJoin "JACCARD" (exArgs exL exR (.float (mkRat 3 2)) ">=") exTok = .error .assertion := by decide
@@ -590,6 +641,8 @@ example : validateJoin "DICE" { exArgs exL exR (.float (mkRat 1 2)) ">=" with lA
 example : validateJoin "DICE" { exArgs exL exR (.float (mkRat 1 2)) ">=" with ltable := none } exTok
     = .error .typeErr := by decide
 example : validateFilterTables (exArgs exL exR (.int 1) ">=").toTableArgs = .ok (exL, exR) := by decide
+/-- a threshold that is not a number is rejected -/
+example : validateJoin "JACCARD" (exArgs exL exR .none ">=") exTok = .error .assertion := by decide
 
 end Examples
 
